@@ -218,6 +218,19 @@ theorem state_inventory_is_pinned :
     RF.Gen.State.statics.all allowedStatic = true := by
   decide
 
+/-- **The accumulating session state is write-only while formatting.**  Inside `impl Session` of
+`src/formatting.rs` (format_input_inner, handle_formatted_file) the list of files emitted so far is only
+`push`ed to and the error flags are only `add`ed (OR-ed) to; neither is read, so what input number `i`
+produces cannot depend on the inputs before it.  In `src/lib.rs` the flags are read only by the public
+getters (and set by `add_operational_error`).  A new access - `self.source_file.iter()`, a test of
+`self.errors.has_diff` before emitting - changes the generated list and this stops checking. -/
+theorem session_state_write_only :
+    RF.Gen.State.sessionUses.filter (·.1 = "src/formatting.rs") =
+      [("src/formatting.rs", "errors", "add"), ("src/formatting.rs", "source_file", "push")] ∧
+    ∀ u ∈ RF.Gen.State.sessionUses.filter (·.1 = "src/lib.rs"),
+      u.2.1 = "errors" ∧ u.2.2 ∈ RF.Gen.State.reportedErrorsFields := by
+  decide
+
 /-- the model's `Flags` has one field per generated `ReportedErrors` field -/
 theorem flags_match_inventory (f : Flags) :
     f.toList.length = RF.Gen.State.reportedErrorsFields.length := by
